@@ -16,6 +16,7 @@ RUNS = {
     "C11": [
         {"name": "K6-chunk", "mode": "kchunk", "budget": (20000, 400000), "nontrivial": r"calls=\d+@\d+,", "keyfn": "generic"},
         {"name": "K6-client-io", "mode": "kneg", "budget": (1500, 30000), "nontrivial": r"ok=1", "keyfn": "generic"},
+        {"name": "K7-messages-intact-while-in-use", "mode": "kalias", "budget": (70, 1400), "nontrivial": r"answered=1", "keyfn": "generic"},
     ],
     "C12": [
         {"name": "K6-version", "mode": "kver", "budget": (10000, 60000), "nontrivial": r"ok=1|rmsize=[1-9]", "keyfn": "generic"},
@@ -691,7 +692,7 @@ for _p in ("C01", "C02"):
     PROPS[_p]["rule"] = PROPS[_p].get("rule", "") + (" kprim: every codec primitive (exported method of buffer, called through a reflective hook) against what "
         "the extractor takes it to be (Gen.primTable, evaluated with encA / decA): writes of 21 boundary values and random values / strings up to 2000 bytes, "
         "reads of every data length 0..11, well-formed, cut and extended strings, random data (sticky overrun flag, zero value, bytes left).")
-for _p in ("C01", "C02", "C03", "C18"):
+for _p in ("C01", "C02", "C03", "C11", "C18"):
     PROPS[_p]["rule"] = PROPS[_p].get("rule", "") + (" kalias: a request with string or payload arguments (mkdir, symlink, mknod, walk, unlinkat, write) is held "
         "inside its backend call while 4..14 further frames (same type with other strings of the same lengths, and getattrs) are received on this and "
         "another connection; at the end of the call its arguments must read as at its beginning; 120..400 pipelined reads whose reply writers block must "
